@@ -6,8 +6,9 @@
   * `dfs_root_exact` — for a root searched depth-first with no streamed LIMIT, the searcher's result
     state is exactly `check_file` (plus the archive member loop) folded over `events`: the entries of the
     tree in pre-order, pruned below `maxdepth`; the traversal part of the state only gains inode numbers of
-    the tree; no error is recorded.  Hypotheses (all explicit, with a satisfying example): names are
-    single path components, directories listable, directory/symlink inode numbers pairwise distinct and
+    the tree; exactly the directories whose listing fails are recorded as errors (`faultsL`, see C17).
+    Hypotheses (all explicit, with a satisfying example): names are
+    single path components, directory/symlink inode numbers pairwise distinct and
     not seen before, and the root's canonical path is longer than "/" (see `root_slash_counterexample`);
   * `events_are_window` — `events` is the full pre-order filtered by `level ≤ maxdepth`
     (`maxdepth = 0` = unbounded), and `below_mindepth_not_reported` — entries above the window are not
@@ -30,7 +31,7 @@ theorem dfs_root_exact (p : Plan) (rp : RootParams) (hl : NoLimit p) (path canon
     (hg : goodL kids) (hnd : (inodesL kids).Nodup) (hfresh : ∀ i ∈ inodesL kids, i ∉ st.walk.visited) :
     match foldReport p rp st.res (eventsL rp path canon 1 kids) with
     | .error a => visitDirD p rp path canon true kids st = .error a
-    | .ok rs' => ∃ w', WalkAfter st.walk w' (inodesL kids) ∧
+    | .ok rs' => ∃ w', WalkAfter st.walk w' (inodesL kids) (faultsL rp path canon 1 kids) ∧
         visitDirD p rp path canon true kids st = .ok { res := rs', walk := w' } := by
   have hd : calcDepth canon - rp.base + 1 = 1 := by omega
   have h := dfs_list p rp hl path canon 1 hroot (by omega) hd kids st hg hnd hfresh
@@ -38,13 +39,14 @@ theorem dfs_root_exact (p : Plan) (rp : RootParams) (hl : NoLimit p) (path canon
   simp only [Bool.not_true, Bool.false_eq_true, if_false, hd]
   exact h
 
--- full pre-order with nesting levels (no pruning)
+-- full pre-order with nesting levels (no pruning); the contents of a directory that cannot be listed are
+-- not part of what can be seen (C17 states what happens there)
 mutual
 def allN (dirPath dirCanon : Str) (lvl : Nat) : Node → List (Node × Entry × Nat)
   | .leaf le z => [(.leaf le z, fillEntry le dirPath dirCanon le.absPath, lvl)]
   | .dir de l kids =>
     (.dir de l kids, fillEntry de dirPath dirCanon de.absPath, lvl) ::
-      allL (fillEntry de dirPath dirCanon de.absPath).path (childCanon dirCanon de.name) (lvl + 1) kids
+      (if l then allL (fillEntry de dirPath dirCanon de.absPath).path (childCanon dirCanon de.name) (lvl + 1) kids else [])
 def allL (dirPath dirCanon : Str) (lvl : Nat) : List Node → List (Node × Entry × Nat)
   | [] => []
   | n :: ns => allN dirPath dirCanon lvl n ++ allL dirPath dirCanon lvl ns
@@ -60,7 +62,9 @@ theorem all_levels_ge_N (dp dc : Str) (lvl : Nat) : ∀ (n : Node), ∀ ev ∈ a
     simp only [allN, List.mem_cons] at h
     rcases h with rfl | h
     · simp
-    · have := all_levels_ge_L _ _ (lvl + 1) kids ev h; omega
+    · cases l with
+      | false => simp at h
+      | true => have := all_levels_ge_L _ _ (lvl + 1) kids ev (by simpa using h); omega
 theorem all_levels_ge_L (dp dc : Str) (lvl : Nat) : ∀ (ns : List Node), ∀ ev ∈ allL dp dc lvl ns, lvl ≤ ev.2.2
   | [] => by intro ev h; simp [allL] at h
   | n :: ns => by
@@ -83,6 +87,10 @@ theorem events_are_window_N (rp : RootParams) (dp dc : Str) (lvl : Nat) (hl : rp
     have hself : (rp.maxDepth == 0 || decide (lvl ≤ rp.maxDepth)) = true := by rcases hl with h | h <;> simp [h]
     simp only [hself, if_true]
     congr 1
+    cases l with
+    | false => simp
+    | true =>
+    simp only [Bool.and_true, if_true]
     by_cases hgo : (rp.maxDepth == 0 || decide (lvl < rp.maxDepth)) = true
     · simp only [hgo, if_true]
       have hl' : rp.maxDepth = 0 ∨ lvl + 1 ≤ rp.maxDepth := by
@@ -143,15 +151,15 @@ theorem dfs_subtree_contiguous (rp : RootParams) (dp dc : Str) (lvl : Nat) (de :
     ∃ sub, eventsL rp dp dc lvl (.dir de l kids :: rest) =
       (.dir de l kids, fillEntry de dp dc de.absPath, lvl) :: sub ++ eventsL rp dp dc lvl rest ∧
       (∀ ev ∈ sub, lvl < ev.2.2) := by
-  refine ⟨if rp.maxDepth == 0 || lvl < rp.maxDepth then
+  refine ⟨if (rp.maxDepth == 0 || lvl < rp.maxDepth) && l then
       eventsL rp (fillEntry de dp dc de.absPath).path (childCanon dc de.name) (lvl + 1) kids else [], ?_, ?_⟩
   · simp [eventsL, eventsN]
   · intro ev hev
     split at hev
     · rename_i hgo
       have hl' : rp.maxDepth = 0 ∨ lvl + 1 ≤ rp.maxDepth := by
-        simp only [Bool.or_eq_true, beq_iff_eq, decide_eq_true_eq] at hgo
-        rcases hgo with h | h
+        simp only [Bool.and_eq_true, Bool.or_eq_true, beq_iff_eq, decide_eq_true_eq] at hgo
+        rcases hgo.1 with h | h
         · exact Or.inl h
         · exact Or.inr (by omega)
       rw [events_are_window_L rp _ _ (lvl + 1) hl' kids] at hev
@@ -166,7 +174,7 @@ theorem links_not_entered (rp : RootParams) (dp dc : Str) (lvl : Nat) (le : Entr
 mutual
 def sizeN : Node → Nat
   | .leaf _ _ => 1
-  | .dir _ _ kids => 1 + sizeL kids
+  | .dir _ l kids => 1 + (if l then sizeL kids else 0)
 def sizeL : List Node → Nat
   | [] => 0
   | n :: ns => sizeN n + sizeL ns
@@ -177,7 +185,9 @@ theorem all_count_N (dp dc : Str) (lvl : Nat) : ∀ n : Node, (allN dp dc lvl n)
   | .leaf le z => by simp [allN, sizeN]
   | .dir de l kids => by
     simp only [allN, sizeN, List.length_cons]
-    rw [all_count_L _ _ (lvl + 1) kids]; omega
+    cases l with
+    | false => simp
+    | true => simp only [if_true]; rw [all_count_L _ _ (lvl + 1) kids]; omega
 theorem all_count_L (dp dc : Str) (lvl : Nat) : ∀ ns : List Node, (allL dp dc lvl ns).length = sizeL ns
   | [] => by simp [allL, sizeL]
   | n :: ns => by
